@@ -9,7 +9,7 @@ from collections import OrderedDict
 from enum import Enum
 from pathlib import Path
 from types import FunctionType
-from typing import Any, Optional, List, Union
+from typing import Any, Dict, Optional, List, Union
 from dataclasses import dataclass
 from urllib.parse import urlparse
 
@@ -272,6 +272,10 @@ class DBFSStore(Store):
                     self._dbutils.fs.ls(str(self._physical_path(Path("./" + dds_p))))
                 except Exception:
                     copy_pending = True
+            if self._commit_type != CommitType.FULL and redir_key == key:
+                # A links-only commit does not look at the copy: a record that names the key is up to date, and
+                # its mark (if any) is left for the next full commit.
+                copy_pending = False
             if redir_key is None or redir_key != key or copy_pending:
                 _logger.debug(
                     f"Path {dds_p} needs update (registered key {redir_key} != {key})"
@@ -309,7 +313,12 @@ class DBFSStore(Store):
                     _logger.debug(f"Skip copy for {obj_path} (links-only commit)")
                 _logger.debug(f"Linking new file {obj_path}")
                 try:
-                    meta = json.dumps({"redirection_key": key})
+                    new_record: Dict[str, Any] = {"redirection_key": key}
+                    if self._commit_type != CommitType.FULL and redir_key is not None:
+                        # A copy made by an earlier full commit may still be there, and it is not a copy of
+                        # this result: a later full commit must not trust it.
+                        new_record["copy_pending"] = True
+                    meta = json.dumps(new_record)
                     self._put(redir_path, meta)
                 except Exception as e:
                     _logger.warning(
